@@ -47,7 +47,13 @@ def main(argv=None):
             d = json.load(f)
         chk = load_check(d["property"], d.get("tier", "quick"), d.get("seed", 0))
         chk.prepare()
-        vs = chk.replay(d["case"], d.get("choices"))
+        from .xplore import HarnessError
+        try:
+            vs = chk.replay(d["case"], d.get("choices"))
+        except HarnessError as e:
+            print("replay of %s diverged on this tree (%s): the recorded execution does not exist "
+                  "here, so the recorded violation does not reproduce" % (a.path, e))
+            return 0
         keys = [v.key for v in vs]
         print("replay of %s: %d violation(s)" % (a.path, len(vs)))
         for v in vs:
